@@ -390,4 +390,41 @@ def EditsIn {α W : Type} (ok : (W → W) → Prop) : List (Step α W) → Prop
   | .write _ :: r => EditsIn ok r
   | .edit f :: r => ok f ∧ EditsIn ok r
 
+/-! ## who the operator is applied to: channels, function nodes, single-output composites -/
+
+/-- the kinds of objects an operator can be written on -/
+inductive OwnerKind where
+  | channel      -- an output channel
+  | funcNode     -- a single-output node that is no composite (function node, transformer …)
+  | composite    -- a single-output COMPOSITE (a macro)
+  deriving DecidableEq, Repr
+
+/-- where `owner <op> …` is answered, by the method resolution order of the classes:
+`some d'` = handed over to the channel's operator `d'`, `none` = taken for child access (`LexicalParent.__getattr__`,
+`Composite.__getitem__` come before `ExploitsSingleOutput` for composites).  `repaired` = the macro asks its
+children first and hands everything else to its output. -/
+def delegate (repaired : Bool) (k : OwnerKind) (d : Dunder) : Option Dunder :=
+  match k, d with
+  | .composite, .getattr => if repaired then some .getattr else none
+  | .composite, .getitem => if repaired then some .getitem else none
+  | _, d => some d
+
+/-! ## arguments of a macro used inside its graph creator -/
+
+/-- how `Macro._purge_single_use_ui_nodes` decides that the node standing for an argument is used once -/
+inductive PurgeRule where
+  | byConnections   -- /repo: the node's channel has at most one connection
+  | byConsumers     -- at most one distinct consumer NODE
+  deriving DecidableEq, Repr
+
+/-- `cs` = the inputs (consumer node, input index) the argument's stand-in node is connected to, in order.
+Result: the inputs that still receive the argument afterwards.  A "single-use" stand-in is removed and the macro
+input is value-linked straight to `connections[0]` (the other connections die with the node); otherwise the
+stand-in stays and feeds them all. -/
+def purgeFed (r : PurgeRule) (cs : List (Nat × Nat)) : List (Nat × Nat) :=
+  let single : Bool := match r with
+    | .byConnections => cs.length ≤ 1
+    | .byConsumers => (cs.map (·.1)).eraseDups.length ≤ 1
+  if single then cs.take 1 else cs
+
 end PwVerif.Inject
